@@ -40,10 +40,6 @@ def build():
 # ------------------------------------------------------------------------------------------------------------------
 # running scripts on the real code and validating the trace
 # ------------------------------------------------------------------------------------------------------------------
-def signature(lines, rel, info):
-    return None
-
-
 STATS = {}
 RE_W = re.compile(r'"e":"W","req":(\d+),"ret":(-?\d+),"err":(\d+),"again":(true|false)')
 RE_RECV = re.compile(r'"e":"Recv","len":(\d+)')
@@ -136,7 +132,7 @@ def run_scripts(ctx, exe, execs, tag, engine="epoll", replayed=True, chunk=20000
         with open(tr, "a") as f:
             f.write('\n{"e":"Fault","kind":"exit","what":"rc=%d"}\n' % rc)
     ok, n = vlib.record_and_validate(ctx, "/bin/true", [], tr, SPEC, "Trace_BufferedFd.tla", "Trace_BufferedFd.cfg",
-                                     "%s (%s)" % (tag, engine), signature_fn=signature)
+                                     "%s (%s)" % (tag, engine))
     if rc != 0 and ok:
         ctx.violation("harness died (rc=%d) in %s: %s" % (rc, tag, out[-1500:]), ctx.save_replay("trace", out[-4000:]))
         ok = False
@@ -456,7 +452,7 @@ def binding(ctx, exe, quick, rnd):
         "a fully closing peer first drains its input (no connection reset is provoked on purpose); after a peer close the "
         "fate of bytes still queued for sending is not constrained",
         "quiescence ('Settled') is reached by running loop passes and peer reads until 4 consecutive passes log nothing; only on "
-        "loopback TCP the driver additionally waits (<= 3 s, 5 ms steps) while data is known to be in flight",
+        "loopback TCP the driver additionally waits (<= 3 s, 5 ms steps; observed: <= 50 ms, Nagle + delayed ACK) while data is known to be in flight",
     ]
     ctx.uncovered = [
         "bind()/unbind() forwarding mode of BufferedFd (received bytes passed to another ByteStream) is not exercised",
